@@ -4,7 +4,9 @@ A small recursive program (a structure builder r(N,S) over a Peano number or a l
 in once / call/N / findall / \\+ \\+ / if-then-else, built in the head, after the call or in an accumulator; optionally
 with n+1 answers of growing depth) is queried through a top-level goal (plain, findall with several templates, nested
 findall, once, call/N, negation, a conjunction that runs a findall while an answer of the builder is active, a
-consumer recursion over the built structure).  The query is then run under EVERY recursion limit of a window
+consumer recursion over the built structure; also, without any program, the builtin =/2 on two terms nested n deep).  The base
+case of the builder may be a DYNAMIC fact (assert_fact).  The consumer may abandon the query after 1-3 answers (break and
+drop / close; evaluate_bounded: the projection raises StopIteration).  The query is then run under EVERY recursion limit of a window
 (counted from the depth of the calling frame, step 1 by default) - through YP.evaluate_bounded and through a plain
 loop under sys.setrecursionlimit - so that the RecursionError strikes at every point of the evaluation it can
 strike at: in the clause bodies, in unify / unify_arrays, in get_value, while findall copies its template, in the
@@ -296,28 +298,20 @@ def _canon(ts):
         return t
     return [terms.show_term(go(t)) for t in ts]
 
+# A Variable that dies while the interpreter is AT the recursion limit cannot run the Python-level callback of the
+# YLDPROLOG_VERIF weak set (WeakSet._remove needs a frame): CPython reports "Exception ignored in ... _remove:
+# RecursionError" on stderr and the dead reference stays in the set's storage, where iteration skips it.  That is noise of
+# the observation hook, not of the engine.  A Python-level sys.unraisablehook cannot filter it (it needs a frame itself), so
+# while - and only while - the limit is lowered, unraisable exceptions go to a C-level sink that drops them at once (nothing
+# is kept alive).  A finaliser that really could not run leaves its bindings behind, which the oracle sees directly.
+import collections
+_DISCARD = collections.deque(maxlen=0).append
+
 def impl(case):
-    # A Variable that dies while the interpreter is AT the recursion limit cannot run the Python-level callback of the
-    # YLDPROLOG_VERIF weak set (WeakSet._remove needs a frame): CPython reports "Exception ignored in ... _remove:
-    # RecursionError" and the dead reference stays in the set's storage, where iteration skips it.  That is noise of the
-    # observation hook, not of the engine: counted, not printed.  Every other unraisable exception is passed on.
-    seen = [0]
-    old = sys.unraisablehook
-    def hook(u):
-        if u.exc_type is RecursionError and getattr(u.object, '__qualname__', '').endswith('WeakSet.__init__.<locals>._remove'):
-            seen[0] += 1
-            return
-        old(u)
-    sys.unraisablehook = hook
     try:
-        r = _impl(case)
-        if isinstance(r, dict):
-            r['weakset_noise'] = seen[0]
-        return r
+        return _impl(case)
     except _Budget:
         return ['budget']
-    finally:
-        sys.unraisablehook = old
 
 def _impl(case):
     from yldprolog import engine as E
@@ -422,6 +416,7 @@ def _impl(case):
         steps[0] = 0
         q = yp.query(name, args)
         lim0 = sys.getrecursionlimit()
+        hook0 = sys.unraisablehook
         end = 'returned'
         stop = spec.get('stop_after')
         if via == 'bounded':
@@ -431,12 +426,15 @@ def _impl(case):
                     raise StopIteration
                 return None
             try:
+                sys.unraisablehook = _DISCARD
                 yp.evaluate_bounded(q, proj, recursion_limit=_depth() + off)
             finally:
                 sys.setrecursionlimit(lim0)
+                sys.unraisablehook = hook0
         else:
             try:
                 try:
+                    sys.unraisablehook = _DISCARD
                     sys.setrecursionlimit(_depth() + off)
                     end = 'done'
                     for _ in q:
@@ -451,6 +449,7 @@ def _impl(case):
                             q = None
                 finally:
                     sys.setrecursionlimit(lim0)
+                    sys.unraisablehook = hook0
             except RecursionError:
                 end = 'cut'
         # the query has ended (exhausted, or unwound by the RecursionError [and closed by evaluate_bounded]);
@@ -589,7 +588,6 @@ def distribution(cases, obs):
         d['sweep_cut'] += o['cut']
         d['sweep_complete'] += o['complete']
         d['sweep_budget'] += 1 if o.get('budget') else 0
-        d['sweep_weakset_noise'] = d.get('sweep_weakset_noise', 0) + o.get('weakset_noise', 0)
         for m, k in ((d['sweep_top'], c['spec']['top']), (d['sweep_wrap'], c['spec']['wrap']), (d['sweep_answers'], min(len(o['ref']), 10)),
                      (d['sweep_last_off'], (o['last_off'] or 0) // 50 * 50)):
             m[str(k)] = m.get(str(k), 0) + 1
